@@ -1,4 +1,5 @@
 mod embed_stream;
+mod fault_stream;
 mod handle_stream;
 mod path_stream;
 mod record_stream;
@@ -51,6 +52,7 @@ fn main() {
         "handle" => handle_stream::run(&o),
         "record" => record_stream::run(&o),
         "embed" => embed_stream::run(&o),
+        "fault" => fault_stream::run(&o),
         "replay" => replay::run(&o),
         s => {
             eprintln!("unknown stream {}", s);
